@@ -35,3 +35,12 @@ def config_utf8_replaced(component, script, impl, problems):
         if C.go_valid_utf8(raw) or C.go_json_string(raw).hex() != m.group(3):
             return False
     return True
+
+
+def kf_c18_seek_reload(component, script, impl, problems):
+    """C18 / memconc: Iterator.Seek (and the lock-free SkipList.Find) load `current.getNext(0)` a SECOND time after the search
+    loop; a node with a smaller key linked in between is then taken as the landing node / candidate. Matches only cases
+    whose every problem is a `seek-below-target` or a lock-free `find-missed` verdict of the concurrent harness."""
+    if component != 'memconc' or not problems:
+        return False
+    return all(p.startswith('memconc ') and (': seek-below-target ' in p or ': find-missed ' in p) for p in problems)
